@@ -222,7 +222,19 @@ def _call_function(kind, style, prov, sc, params, ret_src, body_raises, ns, defa
         plain, dflt = [late(x) for x in plain], [late(x) for x in dflt]
     va = [f"*{varargs[0]}"] if varargs else []
     vk = [f"**{varkw[0]}"] if varkw else []
-    sig = ", ".join(plain + va + dflt + vk) if varargs else ", ".join(plain + dflt + vk)
+    nplain = len(plain)
+    kpos = nplain // 2
+    if varargs:
+        sig = ", ".join(plain + va + dflt + vk)
+    elif style == "kwonly" and nplain:
+        # the second half of the hinted parameters is keyword-only (after a bare `*`)
+        sig = ", ".join(plain[:kpos] + ["*"] + plain[kpos:] + dflt + vk)
+    elif style == "posonly" and nplain:
+        # the first half (at least one) is positional-only
+        kpos = max(1, kpos)
+        sig = ", ".join(plain[:kpos] + ["/"] + plain[kpos:] + dflt + vk)
+    else:
+        sig = ", ".join(plain + dflt + vk)
     rets = f" -> {ret_src}" if ret_src is not None else ""
     if fwd and ret_src is not None:
         rets = f" -> {_late_names(ret_src)!r}"
@@ -254,6 +266,8 @@ def _call_function(kind, style, prov, sc, params, ret_src, body_raises, ns, defa
     pn, pv = [n for n, _ in passed], [v for _, v in passed]
     if varargs:
         args, kwargs = tuple(pv) + tuple(varargs[1]), {}
+    elif style in ("kwonly", "posonly") and pn:
+        args, kwargs = tuple(pv[:kpos]), dict(zip(pn[kpos:], pv[kpos:]))
     elif style == "kw":
         args, kwargs = (), dict(zip(pn, pv))
     elif style == "mixed" and len(pv) > 1:
